@@ -1142,6 +1142,13 @@ func (p *parser) parseBlocks(parent ast.Node, reader text.Reader, pc Context) {
 						verifEmit("Continue", reader, be.Parser, be.Node, lineNum, int(state))
 					}
 					if state&Continue != 0 {
+						// A blank line inside a fenced code block is content of the
+						// code block: it does not separate the blocks around it
+						if be.Node.Kind() == ast.KindFencedCodeBlock && util.IsBlank(line) {
+							for j := len(blankLines) - 1; j >= 0 && blankLines[j].lineNum == lineNum; j-- {
+								blankLines[j].isBlank = false
+							}
+						}
 						// When current node is a container block and has no children,
 						// we try to open new child nodes
 						if state&HasChildren != 0 && i == lastIndex {
